@@ -407,6 +407,16 @@ def _():
         return None
     return all(h for _, h in state["acc"])
 
+@probe("memstore_atomic_insert")
+def _():
+    import collections
+    from twosigma.memento.storage_memory import MemoryStorageBackend
+    b = MemoryStorageBackend()
+    t = [getattr(b, "mementos", None), getattr(b, "metadata", None)]
+    if all(isinstance(x, collections.defaultdict) for x in t):
+        return True
+    return None      # plain tables: whether the writers insert atomically cannot be told from outside
+
 @probe("code_hash_refreshed")
 def _():
     # a mutable module variable that is the default value of a parameter is mutated in place: after the versions have been
